@@ -195,6 +195,9 @@ def run(ctx):
     import c03
 
     ctx.include("C17.6", "no finding is dropped by a de-duplication whose outcome depends on the order in which definitions, passes or files were processed: the runner and the writers never narrow a report collection (shared with C03.1)", c03.rule_drain, only=["no-narrowing", "appends-everything"])
+    import procstate
+
+    procstate.rule(ctx, "C17.9", "the findings for a definition do not depend on which definitions, files or curves the process looked at before it: no process-wide state in hand-written non-test code")
     import c09
 
     ctx.include("C17.8", "prerequisite shared with C09: taint reachability is the full reflexive-transitive closure (a bounded search makes the answer depend on hash order) and every version of a variable gets its own claim (shared with C09.1/C09.4)", c09.rule_taint, c09.rule_selection, only=["taints_any", "multi_step_taint", "report/"])
